@@ -346,8 +346,184 @@ def suite_swath(ctx):
             ctx.case("swath", (ang_deg, str(ch), ti), nontrivial=len(ch[0]) > 1 or len(ch[1]) > 1, sample={"input": inp, "slices": [str(xs), str(ys)]})
 
 
+def suite_swath_seams(ctx):
+    """chunked swath sources and tiny targets (narrower than the swath's pixel spacing) lying between the last line / column of one
+    dask chunk and the first of the next, and where four chunks meet; also thin strips running along such a seam.  Oracle as in
+    suite_swath: the swath pixel nearest to every target pixel centre (brute force over all swath pixels) must be inside the slices,
+    and 'not overlapping' is wrong as soon as one target centre lies on the swath."""
+    import dask.array as da
+    import xarray as xr
+    from pyresample.geometry import IncompatibleAreas, SwathDefinition
+    from pyresample.slicer import create_slicer
+    r = ctx.rng
+    n = 40
+    laea = {"proj": "laea", "lat_0": 50, "lon_0": 10, "ellps": "WGS84"}
+    ll = {"proj": "longlat", "datum": "WGS84"}
+    bases = {"laea": (kc.mk_area(laea, n, n, (-1.0e6, -1.0e6, 1.0e6, 1.0e6)), 50000.0),        # (grid seen as a swath, pixel spacing in metres)
+             "longlat": (kc.mk_area(ll, n, n, (10.0, 1.0, 14.0, 5.0)), 11000.0)}
+    chunkings = [((10,) * 4, (10,) * 4), ((20, 20), (10,) * 4), ((4, 12, 12, 12), (8, 16, 16)), ((7, 9, 24), (13, 14, 13)), ((25, 5, 10), (5,) * 8)]
+    swaths = [(bn, rot, ch) for bn in bases for rot in ((0, 30, -30) if bn == "laea" else (0,)) for ch in chunkings]
+    if ctx.quick:
+        swaths = [("laea", 0, chunkings[0]), ("longlat", 0, chunkings[0])] + r.sample(swaths, 3)
+    for bn, rot, ch in swaths:
+        base, spacing = bases[bn]
+        ext = [float(v) for v in base.area_extent]
+        px, py = (ext[2] - ext[0]) / n, (ext[3] - ext[1]) / n
+        ang = np.radians(rot)
+
+        def to_crs(u, v):
+            """array position (col u, row v) of the swath -> coordinates in the base CRS (after the rotation of the grid)"""
+            x, y = ext[0] + (u + 0.5) * px, ext[3] - (v + 0.5) * py
+            return x * np.cos(ang) - y * np.sin(ang), x * np.sin(ang) + y * np.cos(ang)
+        uu, vv = np.meshgrid(np.arange(n, dtype=float), np.arange(n, dtype=float))
+        gx, gy = to_crs(uu, vv)
+        lons, lats = base.get_lonlat_from_projection_coordinates(gx, gy)
+        lons, lats = np.asarray(lons, float), np.asarray(lats, float)
+        sw = SwathDefinition(xr.DataArray(da.from_array(lons, chunks=ch), dims=("y", "x")), xr.DataArray(da.from_array(lats, chunks=ch), dims=("y", "x")))
+        row_seams = list(np.cumsum(ch[0])[:-1])       # a seam lies between line b-1 and line b
+        col_seams = list(np.cumsum(ch[1])[:-1])
+        irregular = len(set(ch[0][:-1])) > 1 or len(set(ch[1][:-1])) > 1
+        for k in range(14 if ctx.quick else 60):
+            kind = ["row-seam", "col-seam", "four-chunks", "row-seam-strip", "col-seam-strip", "inside-chunk", "across-seam"][k % 7]
+            in_seam_v = kind in ("row-seam", "four-chunks", "row-seam-strip")
+            in_seam_u = kind in ("col-seam", "four-chunks", "col-seam-strip")
+            # centre of the target in array coordinates of the swath
+            v0 = r.choice(row_seams) - 0.5 + r.uniform(-0.2, 0.2) if in_seam_v else r.uniform(3.0, n - 4.0)
+            u0 = r.choice(col_seams) - 0.5 + r.uniform(-0.2, 0.2) if in_seam_u else r.uniform(3.0, n - 4.0)
+            if kind == "across-seam":
+                v0 = r.choice(row_seams) - 0.5 + r.uniform(-1.5, 1.5)
+            strip = kind.endswith("strip")
+            aligned = strip or (rot == 0 and r.random() < 0.5)
+            if aligned and rot != 0:
+                strip, aligned, kind = False, False, kind.replace("-strip", "")
+            # half sizes of the target in swath pixels: under 0.25 across a seam (for targets on local axes, tilted by up to 30 degrees
+            # against the swath's grid: under 0.15)
+            small = (0.25 if aligned else 0.15)
+            hv = r.uniform(0.05, small) if in_seam_v or not strip else r.uniform(1.0, 6.0)
+            hu = r.uniform(0.05, small) if in_seam_u or not strip else r.uniform(1.0, 6.0)
+            if kind in ("inside-chunk", "across-seam"):
+                hu, hv = r.uniform(0.05, 1.5), r.uniform(0.05, 1.5)
+            th = r.choice([1, 2, 3, 4]) if hv < 1 else r.choice([3, 8, 20])          # one-pixel-thick targets included
+            tw = r.choice([1, 2, 3, 4]) if hu < 1 else r.choice([3, 8, 20])
+            if aligned:
+                x0, y0 = ext[0] + (u0 + 0.5) * px, ext[3] - (v0 + 0.5) * py
+                tgt = kc.mk_area(laea if bn == "laea" else ll, tw, th, (x0 - hu * px, y0 - hv * py, x0 + hu * px, y0 + hv * py))
+                tcrs = "swath grid CRS"
+            else:
+                lo0, la0 = base.get_lonlat_from_projection_coordinates(*to_crs(u0, v0))
+                tcrs = r.choice(["laea", "tmerc", "stere"])
+                tgt = kc.mk_area({"proj": tcrs, "lat_0": float(la0), "lon_0": float(lo0), "ellps": "WGS84"}, tw, th,
+                                 (-hu * spacing, -hv * spacing, hu * spacing, hv * spacing))
+            inp = {"swath": f"{n}x{n} {bn} grid rotated by {rot} deg, seen as a swath", "chunks": [list(ch[0]), list(ch[1])], "placement": kind,
+                   "target_centre_in_swath_array_coords": {"col": round(u0, 3), "row": round(v0, 3)}, "target_half_size_in_swath_pixels": [round(hu, 3), round(hv, 3)],
+                   "target_crs": tcrs, "target_shape": [th, tw], "target_extent": [float(v) for v in tgt.area_extent]}
+            tlo, tla = kc.lonlats(tgt)
+            d, _, _ = kc.dist_matrix(lons.ravel(), lats.ravel(), np.asarray(tlo).ravel(), np.asarray(tla).ravel())
+            near = d.argmin(axis=1)
+            ok = d.min(axis=1) <= spacing
+            rows, cols = np.unravel_index(near[ok], lons.shape)
+            tags = {"irregular_chunks": irregular, "placement": kind, "one_pixel_thick_target": 1 in (th, tw)}
+            try:
+                with warnings.catch_warnings():
+                    warnings.simplefilter("ignore")
+                    xs, ys = create_slicer(sw, tgt).get_slices()
+            except IncompatibleAreas:
+                if rows.size:
+                    ctx.fail("slicer.SwathSlicer", f"reported as non-overlapping although {rows.size} target centres lie on the swath (nearest swath lines "
+                             f"{int(rows.min())}..{int(rows.max())}, columns {int(cols.min())}..{int(cols.max())})", inp, tags=tags, size=5)
+                ctx.case("swath.seams", (bn, rot, str(ch), kind, round(u0, 6), round(v0, 6)), nontrivial=True)
+                continue
+            inside = (rows >= ys.start) & (rows < ys.stop) & (cols >= xs.start) & (cols < xs.stop)
+            if rows.size and not inside.all():
+                j = int(np.flatnonzero(~inside)[0])
+                ctx.fail("slicer.SwathSlicer", f"the slices drop swath pixel (line {int(rows[j])}, col {int(cols[j])}) nearest to a target pixel centre", inp,
+                         {"x_slice": str(xs), "y_slice": str(ys)}, tags=tags, size=5)
+            ctx.case("swath.seams", (bn, rot, str(ch), kind, round(u0, 6), round(v0, 6)), nontrivial=in_seam_u or in_seam_v,
+                     sample={"input": inp, "slices": [str(xs), str(ys)]} if kind == "four-chunks" else None)
+            ctx.count("swath.seams." + kind)
+
+
+def suite_oriented_targets(ctx):
+    """area -> area in DIFFERENT CRSs that share the axis unit (metre/metre, degree/degree), the target given in each of the four
+    axis orientations (extent min->max or max->min per axis, as native geostationary grids are), with target pixels finer than, equal
+    to and several times coarser than the source pixels, targets inside / across the edge of / larger than the source, and
+    one-pixel-thick targets.  Oracle: _needed + _check_cover (every target pixel centre mapped into the source grid with pyproj)."""
+    import pyproj
+    from pyresample.geometry import IncompatibleAreas
+    from pyresample.resampler import crop_source_area
+    from pyresample.slicer import create_slicer
+    r = ctx.rng
+    metre = {"laea": {"proj": "laea", "lat_0": 50.0, "lon_0": 10.0, "ellps": "WGS84"},
+             "stere": {"proj": "stere", "lat_0": 90.0, "lon_0": 10.0, "lat_ts": 60.0, "ellps": "WGS84"},
+             "merc": {"proj": "merc", "lon_0": 0.0, "ellps": "WGS84"},
+             "tmerc": {"proj": "tmerc", "lon_0": 12.0, "lat_0": 0.0, "ellps": "WGS84"},
+             "geos": {"proj": "geos", "lon_0": 0.0, "h": 35785831.0, "ellps": "WGS84"}}
+    degree = {"longlat_wgs84": {"proj": "longlat", "datum": "WGS84"}, "longlat_bessel": {"proj": "longlat", "ellps": "bessel"},
+              "longlat_sphere": {"proj": "longlat", "R": 6371229.0}}
+    for k in range(36 if ctx.quick else 400):
+        unit = "degree" if k % 4 == 3 else "metre"
+        table = degree if unit == "degree" else metre
+        sname = r.choice([c for c in table if c != "geos"])
+        tname = r.choice([c for c in table if c != sname])
+        sw_, sh_ = r.choice([(120, 90), (90, 130), (200, 150)])
+        ps = r.choice([1000.0, 2000.0, 500.0]) if unit == "metre" else r.choice([0.01, 0.02])
+        # the source lies over central Europe
+        sx0, sy0 = pyproj.Transformer.from_crs("EPSG:4326", pyproj.CRS.from_user_input(table[sname]), always_xy=True).transform(r.uniform(5.0, 15.0), r.uniform(45.0, 56.0))
+        sext = (sx0 - sw_ * ps / 2, sy0 - sh_ * ps / 2, sx0 + sw_ * ps / 2, sy0 + sh_ * ps / 2)
+        src = kc.mk_area(table[sname], sw_, sh_, sext)
+        # the target: centred on a point of the source (sometimes near / beyond its edge), pixel size = ratio x source pixel size
+        ratio = r.choice([0.5, 1.0, 1.7, 2.5, 4.1, 6.0])
+        shape_kind = ["block", "block", "row", "column", "pixel", "containing"][k % 6]
+        th, tw = {"block": (r.randrange(4, 30), r.randrange(4, 30)), "row": (1, r.randrange(3, 25)), "column": (r.randrange(3, 25), 1), "pixel": (1, 1),
+                  "containing": (40, 40)}[shape_kind]
+        if shape_kind == "containing":
+            ratio = max(sw_, sh_) / 40.0 * r.uniform(1.2, 2.0)
+        fu, fv = (r.uniform(0.25, 0.75), r.uniform(0.25, 0.75)) if r.random() < 0.7 else (r.choice([0.02, 0.98, r.uniform(0, 1)]), r.choice([0.03, 0.97, r.uniform(0, 1)]))
+        cx, cy = sext[0] + fu * sw_ * ps, sext[1] + fv * sh_ * ps
+        tx0, ty0 = pyproj.Transformer.from_crs(src.crs, pyproj.CRS.from_user_input(table[tname]), always_xy=True).transform(cx, cy)
+        if not (np.isfinite(tx0) and np.isfinite(ty0)):
+            continue
+        pt = ratio * ps
+        if unit == "metre" and tname in ("merc",):
+            pt *= 1.6         # Mercator's scale at these latitudes: keep the ground size of the pixels comparable
+        tbase = (tx0 - tw * pt / 2, ty0 - th * pt / 2, tx0 + tw * pt / 2, ty0 + th * pt / 2)
+        orients = {"north_up": tbase, "flip_x": (tbase[2], tbase[1], tbase[0], tbase[3]), "flip_y": (tbase[0], tbase[3], tbase[2], tbase[1]),
+                   "flip_xy": (tbase[2], tbase[3], tbase[0], tbase[1])}
+        for to, text in orients.items():
+            tgt = kc.mk_area(table[tname], tw, th, text)
+            inp = {"source": {"crs": table[sname], "shape": [sh_, sw_], "extent": [float(v) for v in sext]},
+                   "target": {"crs": table[tname], "shape": [th, tw], "extent": [float(v) for v in text], "orientation": to},
+                   "target_pixel_over_source_pixel": round(ratio, 3), "axis_unit": unit}
+            c, rr = _needed(src, tgt)
+            tags = {"one_pixel_thick_target": 1 in (th, tw), "target_orientation": to, "axis_unit": unit}
+            for entry in ("create_slicer", "crop_source_area"):
+                try:
+                    with warnings.catch_warnings():
+                        warnings.simplefilter("ignore")
+                        if entry == "create_slicer":
+                            xs, ys = create_slicer(src, tgt).get_slices()
+                        else:
+                            _, xs, ys = crop_source_area(src, tgt)
+                except IncompatibleAreas:
+                    if c.size:
+                        ctx.fail(f"slicer.{entry}", f"reported as non-overlapping although {c.size} target pixel centres fall on the source grid", inp,
+                                 {"needed_cols": [float(c.min()), float(c.max())], "needed_rows": [float(rr.min()), float(rr.max())]},
+                                 tags={**tags, "kind": "incompatible"}, size=5)
+                    ctx.case("oriented_targets", (k, sname, tname, to, entry), nontrivial=True)
+                    continue
+                except Exception as e:  # noqa
+                    ctx.fail(f"slicer.{entry}", f"raised {type(e).__name__}: {str(e)[:120]}", inp, tags=tags, size=5)
+                    continue
+                _check_cover(ctx, f"slicer.{entry}", inp, src, c, rr, xs, ys, tags={**tags, "kind": "cover"}, size=5)
+                ctx.case("oriented_targets", (k, sname, tname, to, entry, tuple(text)), nontrivial=to != "north_up",
+                         sample={"input": inp, "slices": [str(xs), str(ys)], "needed": int(c.size)} if to == "flip_xy" and ratio > 2 else None)
+            ctx.count(f"oriented_targets.{to}.{shape_kind}")
+
+
 def run(ctx):
     suite_same_crs(ctx)
     suite_diff_crs(ctx)
     suite_reject(ctx)
     suite_swath(ctx)
+    suite_swath_seams(ctx)
+    suite_oriented_targets(ctx)
